@@ -13,7 +13,7 @@ PID = "C16"
 MODULES = ["GroupbyVerif.Props.C16"]
 RULE = ("seeded random datasets (1-2 keys incl. null keys and unused categories, <= 16 rows, boolean/no mask) x {var, std (ddof 0/1) on small integers "
         "(exact rational oracle), on int32/int64 values up to 7e8 in magnitude (group sums whose square leaves int64) and on floats with arbitrary offsets 0..1e8 and scales 1e-3..1e3 (error bound 16*n*eps*max|x|^2), median, quantile lists, "
-        "apply with user functions returning a scalar / a fixed-length vector / an input-aligned vector, agg with a list of functions, ratio, subset_ratio, "
+        "apply with user functions returning a scalar / a fixed-length vector / an input-aligned vector, agg with a list of functions and with a single one (four function sets incl. median / size, with observed_only on and off on keys with unused categories), ratio, subset_ratio, "
         "density (values and sizes, with and without margins)}; oracles: two-pass Fraction arithmetic, NumPy median/quantile on each group's selected values "
         "in row order, the individual primitive calls; non-trivial = >= 2 groups, one with >= 3 values; distinct = distinct (dataset, op, parameters)")
 ASSUMPTIONS = ["np.median / np.quantile are the reference for quantiles (library calls them per group)",
@@ -51,6 +51,9 @@ def gen_cases(tier, rng):
             sgn = rng.choice([1, -1])
             case["big"] = [sgn * (5 * 10 ** 8 + rng.randrange(0, 2 * 10 ** 8)) if rng.random() < 0.9 else rng.randrange(-1000, 1000) for _ in range(len(ds["vals"]))]
             case["idt"] = rng.choice(["int64", "int32"])
+        if op == "agg_list":
+            case["funcs"] = rng.choice([["sum", "max", "count"], ["mean", "min", "first"], ["sum", "median", "size"], ["last", "var"]])
+            case["observed_only"] = rng.random() < 0.5
         if op in ("ratio", "density"):
             case["vals"] = [None if v is None else abs(v) + 1 for v in case["vals"]]
         yield case
@@ -175,13 +178,22 @@ def evaluate(case, drv):
                 if [l[-1] for l in r.index] != want_inner:
                     return bad(f"inner index = original rows {want_inner}", [l[-1] for l in r.index])
         elif op == "agg_list":
-            funcs = ["sum", "max", "count"]
-            r = gb.agg(vals, funcs, mask=mask)
+            # a list of aggregations (and a single one) == the individual calls, under the same options
+            funcs = case.get("funcs") or ["sum", "max", "count"]
+            opts = dict(mask=mask)
+            if case.get("observed_only") is False and not any(f in ("median", "size") for f in funcs):
+                opts["observed_only"] = False
+            r = gb.agg(vals, funcs, **opts)
             for fn in funcs:
-                single = getattr(gb, fn)(vals, mask=mask)
+                kw_single = {k: v for k, v in opts.items() if not (fn in ("median", "size") and k == "observed_only")}
+                single = gb.size(**kw_single) if fn == "size" else getattr(gb, fn)(vals, **kw_single)
                 a, b = as_map(r[fn]), as_map(single)
                 if set(a) != set(b) or any(cv(a[k]) != cv(b[k]) for k in a):
-                    return bad(f"{fn}: {b}", a)
+                    return bad(f"{fn}: {b}", a, note="list of aggregations != individual call")
+                one = gb.agg(vals, fn, **kw_single)
+                c = as_map(one)
+                if set(c) != set(b) or any(cv(c[k]) != cv(b[k]) for k in c):
+                    return bad(f"{fn}: {b}", c, note="agg with a single function != the primitive")
         elif op in ("ratio", "subset_ratio"):
             if op == "ratio":
                 v2 = vals * 2 + 1
